@@ -19,7 +19,7 @@ import Csverif.Driver.Wire
    esc <cls|none>                    → ok | reject escaped <cls>                        (a step without injected fault)
    queue <steps> <id:prio:fails|~>*  → synced=<ids> queue=<id:prio:fails>*              (the punting work queue)
    pick <id:prio>*                   → <id> | none                                      (lowest priority, first listed)
-   <stepout> = notes=<kind,...|-> punts=<n> commits=<n> cursor=<T|F> walk=<T|F> auth=<T|F> raised=<cls|none> -/
+   <stepout> = notes=<kind,...|-> punts=<n> commits=<n> cursor=<T|F> walk=<T|F> forgot=<T|F> auth=<T|F> raised=<cls|none> -/
 namespace CS.Driver.MonC10
 open CS.Faults CS.Wire
 
@@ -55,7 +55,7 @@ def decSite : String → Option Site
 
 def encOut (o : StepOut) : String :=
   let notes := if o.notes.isEmpty then "-" else ",".intercalate (o.notes.map encKind)
-  s!"notes={notes} punts={o.punts} commits={o.commits} cursor={encBool o.cursorReset} walk={encBool o.needWalk} auth={encBool o.needAuth} raised={encOptCls o.raised}"
+  s!"notes={notes} punts={o.punts} commits={o.commits} cursor={encBool o.cursorReset} walk={encBool o.needWalk} forgot={encBool o.walkForgot} auth={encBool o.needAuth} raised={encOptCls o.raised}"
 
 def encOutcome : Runnable.Outcome → String
   | .success => "S" | .noop => "N" | .backoffReq => "B" | .exc => "E" | .baseExc => "X"
